@@ -1979,16 +1979,12 @@ class AnsiStr(str):
         s:Union[str,'AnsiString','AnsiStr']='',
         *settings:Union[AnsiFormat, AnsiSetting, str, int, list, tuple]
     ):
-        if isinstance(s, AnsiString):
-            ansi_string = s.copy()
-        elif isinstance(s, AnsiStr):
-            if settings:
-                ansi_string = s._s
-            else:
-                instance = super().__new__(cls, str(s))
-                instance._s = s._s
-                return instance
-        elif isinstance(s, str):
+        if isinstance(s, AnsiStr) and not settings:
+            instance = super().__new__(cls, str(s))
+            instance._s = s._s
+            return instance
+        elif isinstance(s, AnsiString) or isinstance(s, str):
+            # This makes a copy when s is AnsiString or AnsiStr
             ansi_string = AnsiString(s, *settings)
         else:
             raise TypeError('Invalid type for s')
